@@ -1,12 +1,16 @@
-(* Property C01 — mux -> demux round trip (theorems only).
+(* Property C01 — mux -> demux round trip (theorems only; proofs in Proofs/RoundTrip*.v).
    The round trip is a composition: (1) what the muxer emits for one WriteData is a run of packets on the stream's PID,
-   the first with payload_unit_start, counters consecutive (C05), whose payloads concatenate to the PES header followed
-   by the payload (C04/C12 writer); (2) the demuxer's accumulator turns such runs, under any interleaving with other
-   PIDs and tables, into exactly these groups, each once, in order, the last one at end of stream (C02_units_exact,
-   C07_per_pid); (3) parsePESData on header ++ payload returns the header with its derived fields and exactly the
-   payload (C12_parse_write_header).  The pieces proved so far are restated here; the composed statement is kept in
-   full as C01_roundtrip_full and is checked on every run by running the composed models against the composed
-   implementation (RunC01.v) and by the implementation-side oracle. *)
+   the first payload packet with payload_unit_start, counters consecutive (C05), whose payloads concatenate to the PES
+   header followed by the payload (C04_unit / C12 writer), preceded by the PAT;PMT pair when it is due (C17);
+   (2) every packet the muxer builds is 188 bytes that parsePacket turns back into the packet (C11_parse_write), and the
+   packet buffer hands them over one by one (C19_reader_refinement); (3) the demuxer's accumulator flushes a table
+   packet at once and a unit when the next unit of its PID starts or at end of stream (the accumulator lemmas of
+   C02 / C06); (4) parsePESData on header ++ payload returns the header with its derived fields and exactly the payload
+   (C12_parse_write_header), parsePSIData on the table payloads returns the PAT and the PMT (C13).
+   The pieces come first (C01_groups_are_units, C01_pes_roundtrip, C01_whole_packets), then one WriteData demultiplexed
+   alone (C01_roundtrip_one_unit), then whole histories (C01_roundtrip and its corollaries).  The composed models are
+   also run against the composed implementation on every check (Extract/RunC01.v) and an implementation-side oracle
+   checks the round trip against what was written. *)
 From Coq Require Import ZArith List Bool.
 Require Import Base.Bits Base.Iter Base.Wr Gen.Consts Gen.Types Gen.Preds Model.Packet Model.Pes Model.Pool Model.PoolRun
   Model.Muxer Model.Reader Model.Demux Model.DemuxFull Spec.MuxSpec Spec.PesSpec Spec.PacketSpec
